@@ -481,6 +481,7 @@ class World(object):
                         ssrc.callbacks = []
                 except Exception:
                     shadow = None
+        dest_val_ref = self.slots[st.dest].obj.val if st.dest is not None else None
         self.stack.append(st)
         try:
             try:
@@ -538,7 +539,9 @@ class World(object):
                 # well-formed: outside the aliasing profile the object stays in play, and its next
                 # write is judged from the flags it is observed to have now (DESIGN 5.2, F3)
                 self.bump('failed_write_dest_kept')
-                if st.kind != 'indexed':
+                if st.kind != 'indexed' and self.slots[st.dest].obj.val is not dest_val_ref:
+                    # (observed, not assumed: a write rejected before its store leaves the old buffer -
+                    #  and whatever views alias it - in place)
                     self.fresh_buffer(st.dest)
         self.log.append(self.log_entry(st))
         return st
@@ -1002,6 +1005,11 @@ class World(object):
             if not V.is_numeric_container(cont):
                 raise Skip('container is not numeric')
             st.extra['container'] = ci
+        if cont is not None and route == 'rop' and isinstance(cont, np.ndarray):
+            # ndarray OP fxp is dispatched by NumPy (__array_ufunc__), not by the reflected operator:
+            # it is the NumPy route, with that route's result register
+            route = 'np'
+            st.extra['ndarray_left_operand'] = True
         reg = None
         out_like = None
         kwargs = {}
@@ -1080,6 +1088,10 @@ class World(object):
                  else bv % ao)
         elif route == 'fn':
             x = getattr(fxf, f)(ao, bv, **kwargs)
+        elif st.extra.get('ndarray_left_operand'):
+            x = (bv + ao if f == 'add' else bv - ao if f == 'sub' else bv * ao if f == 'mul' else
+                 bv / ao if f == 'truediv' else bv // ao if f == 'floordiv' else bv ** ao if f == 'pow'
+                 else bv % ao)
         else:
             npf = {'add': np.add, 'sub': np.subtract, 'mul': np.multiply, 'truediv': np.true_divide,
                    'floordiv': np.floor_divide, 'mod': np.mod, 'pow': np.power}[f]
